@@ -30,17 +30,22 @@ JUDGE = os.environ.get("VERIF_C03_JUDGE", "c03_judge")
 
 
 def shape(j):
-    """shape of a failing case, for the findings file"""
-    exp_ok = (j.get("oracle") or {}).get("ok")
+    """shape of a failing case (from what was observed only, so that it is stable under replay)"""
     if j["load"] == "err":
         return "empty_map_fails" if gl.has_empty_map(j["doc"]) else "load_fails_on_resolvable_document"
     if j["load"] in ("panic", "buildpanic"):
         return "panic"
-    if j["load"] == "ok" and exp_ok is False:
-        return "missing_error"
-    if any(g["kind"] == "val" and g["val"]["t"] == "m" for g in j["gets"]):
+    if any(g["kind"] == "val" and g["val"]["t"] == "m" and looks_like_switch(g["val"]) for g in j["gets"]):
         return "switch_left_unresolved"
-    return "wrong_value"
+    return "wrong_result_after_successful_load"
+
+
+def looks_like_switch(t):
+    """some map below has a key that is `default` or spelled like a dimension value"""
+    import re
+    if t["t"] == "m" and any(e["k"] == "default" or re.fullmatch(r"(?i)d[123][a-e]", e["k"]) for e in t.get("m", [])):
+        return True
+    return any(looks_like_switch(c) for c in t.get("l", [])) or any(looks_like_switch(e["v"]) for e in t.get("m", []))
 
 
 def features(j):
@@ -93,7 +98,9 @@ def run(ctx):
     cr = gl.corpus_run(ctx, "C03")
     if cr:
         runs.insert(1, cr)
+    ctx.log("harness built")
     terms, jsons, err = vlib.harness_cases(ctx, binp, runs)
+    ctx.log("harness ran: %d cases" % len(jsons))
     if err:
         ctx.report({"unchecked": "harness run", "detail": err}, {"kind": "harness"}, failing_input=False)
         return
@@ -114,7 +121,7 @@ def run(ctx):
             ctx.report({"unchecked": "generator's by-construction expectation = resolve_spec",
                         "case": view(j)}, {"kind": "oracle"}, failing_input=False)
             continue
-        if ctx.nreplay < 4:
+        if ctx.nreplay < 3:
             sh = shape(j)
             _, mj = gl.minimise(ctx, binp, gl.HEADER, CASE, JUDGE, to_input(j), code, variants, size,
                                 keep=lambda c: shape(c) == sh)
